@@ -31,6 +31,78 @@ def _null_pair(v, e="expected", a="actual"):
     return v.get(e), v.get(a)
 
 
+def assert_family(prog, shell="UtestShell"):
+    """the fold machinery of R1, shared with C14.R3: returns (fold_assert(f, vals, answers) -> (log, failure constructions), TABLE)
+    where TABLE maps an assert entry point to a generator of (leading argument values, predicate is false?, description)"""
+    # ---------------- R1 ----------------------------------------------------
+    # every assert entry point folded on operand cases against its predicate; the failure path never returns (C01.R3)
+    from cpv.ceval import Evaluator, Unknown
+
+    class Halt(Exception):
+        pass
+
+    def txt(v):
+        return v[1] if isinstance(v, tuple) and v[0] == "str" else None
+
+    def cmp3(a_, b_):
+        return (a_ > b_) - (a_ < b_)
+
+    def fold_assert(f, vals, answers=None):
+        """vals: leading argument values by position. Returns (log, failure constructor arguments)"""
+        log = []
+        env = {}
+        for i_, q in enumerate(f.params):
+            env[q["name"]] = vals[i_] if i_ < len(vals) else 7000 + i_
+
+        def failwith(*a_):
+            log.append("fail")
+            raise Halt()
+        hooks = string_hooks({
+            "TestResult::countCheck": lambda *a_: (log.append("check"), 0)[1], shell + "::failWith": failwith, shell + "::getTestResult": lambda *a_: 6000,
+            "SimpleString::StrCmp": lambda a_, b_: None if txt(a_) is None or txt(b_) is None else cmp3(txt(a_), txt(b_)),
+            "SimpleString::StrNCmp": lambda a_, b_, n_: None if txt(a_) is None or txt(b_) is None else cmp3(txt(a_)[:n_], txt(b_)[:n_]),
+            "SimpleString::MemCmp": lambda a_, b_, n_: None if txt(a_) is None or txt(b_) is None else cmp3(txt(a_)[:n_], txt(b_)[:n_]),
+            "doubles_equal": lambda *a_: (log.append(("doubles_equal", a_)), (answers or {}).get("doubles_equal", 1))[1]})
+        ev = Evaluator(prog, f, env=env, calls=hooks)
+        ev.pass_object = True
+        try:
+            ev.run_blocks(f.entry, max_steps=600)
+        except Halt:
+            pass
+        ctor = [t[1] for t in ev.trace if t[0].startswith("construct ") and t[0].endswith("Failure")]
+        fold_assert.last_classes = [t[0][len("construct "):] for t in ev.trace if t[0].startswith("construct ") and t[0].endswith("Failure")]
+        return log, ctor
+
+    def S(t):
+        return ("str", t) if t is not None else 0
+    STRS = [None, "abc", "abd", "ABC", "ab", "", "xabcx"]
+
+    def int_cases(f):
+        rng = type_range(prog, f.params[0]["ct"]) or (0, 1000)
+        lo, hi = rng
+        vs = sorted({lo, hi, 0 if lo <= 0 else lo, 5 if lo <= 5 <= hi else hi, 6 if lo <= 6 <= hi else lo} | ({1 << 32, (1 << 32) + 5} if hi >= (1 << 33) else set()) | ({-1} if lo < 0 else set()))
+        for e_ in vs:
+            for a_ in vs:
+                yield (e_, a_), e_ != a_, "(%d, %d)" % (e_, a_)
+    TABLE = {
+        "assertTrue": lambda f: (((c,), not c, "(%d)" % c) for c in (0, 1)),
+        "assertEquals": lambda f: (((c, S("e"), S("a")), bool(c), "(failed=%d)" % c) for c in (0, 1)),
+        "assertCompare": lambda f: (((c,), not c, "(%d)" % c) for c in (0, 1)),
+        "fail": lambda f: iter([((S("text"),), True, "()")]),
+        "assertCstrEqual": lambda f: (((S(e_), S(a_)), (e_ is None) != (a_ is None) or (e_ is not None and e_ != a_), "(%r, %r)" % (e_, a_)) for e_ in STRS for a_ in STRS),
+        "assertCstrNEqual": lambda f: (((S(e_), S(a_), n_), (e_ is None) != (a_ is None) or (e_ is not None and e_[:n_] != a_[:n_]), "(%r, %r, %d)" % (e_, a_, n_)) for e_ in STRS for a_ in STRS for n_ in (0, 2, 3, 6)),
+        "assertCstrNoCaseEqual": lambda f: (((S(e_), S(a_)), (e_ is None) != (a_ is None) or (e_ is not None and e_.lower() != a_.lower()), "(%r, %r)" % (e_, a_)) for e_ in STRS for a_ in STRS),
+        "assertCstrContains": lambda f: (((S(e_), S(a_)), (e_ is None) != (a_ is None) or (e_ is not None and e_ not in a_), "(%r, %r)" % (e_, a_)) for e_ in STRS for a_ in STRS),
+        "assertCstrNoCaseContains": lambda f: (((S(e_), S(a_)), (e_ is None) != (a_ is None) or (e_ is not None and e_.lower() not in a_.lower()), "(%r, %r)" % (e_, a_)) for e_ in STRS for a_ in STRS),
+        "assertBinaryEqual": lambda f: (((S(e_), S(a_), n_), n_ != 0 and ((e_ is None) != (a_ is None) or (e_ is not None and e_[:n_] != a_[:n_])), "(%r, %r, %d)" % (e_, a_, n_)) for e_ in (None, "abc", "abd") for a_ in (None, "abc", "abd") for n_ in (0, 2, 3)),
+        "assertBitsEqual": lambda f: (((e_, a_, m_, 1), (e_ & m_) != (a_ & m_), "(%#x, %#x, mask %#x)" % (e_, a_, m_)) for e_ in (0xF0, 0x0F, (1 << 63) | 1) for a_ in (0xF0, 0xFF, 1) for m_ in (0, 0xF0, 0xFF, (1 << 64) - 1)),
+        "assertLongsEqual": int_cases, "assertUnsignedLongsEqual": int_cases, "assertLongLongsEqual": int_cases, "assertUnsignedLongLongsEqual": int_cases, "assertSignedBytesEqual": int_cases,
+        "assertPointersEqual": lambda f: (((e_, a_), e_ != a_, "(%d, %d)" % (e_, a_)) for e_ in (0, 4096, 1 << 40) for a_ in (0, 4096, (1 << 40) + (1 << 32))),
+        "assertFunctionPointersEqual": lambda f: (((e_, a_), e_ != a_, "(%d, %d)" % (e_, a_)) for e_ in (0, 4096, 1 << 40) for a_ in (0, 4096, (1 << 40) + (1 << 32))),
+    }
+    return fold_assert, TABLE
+
+
 def macro_layer(ctx, run):
     """R5: fold every witness function of witness/C03_macros.cpp against recording assert stubs"""
     import os
@@ -134,70 +206,7 @@ def check(ctx, run):
     from .shared import char_classifiers
     char_classifiers(prog, run, "R4", which=("isUpper", "ToLower"))
     # ---------------- R1 ----------------------------------------------------
-    # every assert entry point folded on operand cases against its predicate; the failure path never returns (C01.R3)
-    from cpv.ceval import Evaluator, Unknown
-
-    class Halt(Exception):
-        pass
-
-    def txt(v):
-        return v[1] if isinstance(v, tuple) and v[0] == "str" else None
-
-    def cmp3(a_, b_):
-        return (a_ > b_) - (a_ < b_)
-
-    def fold_assert(f, vals, answers=None):
-        """vals: leading argument values by position. Returns (log, failure constructor arguments)"""
-        log = []
-        env = {}
-        for i_, q in enumerate(f.params):
-            env[q["name"]] = vals[i_] if i_ < len(vals) else 7000 + i_
-
-        def failwith(*a_):
-            log.append("fail")
-            raise Halt()
-        hooks = string_hooks({
-            "TestResult::countCheck": lambda *a_: (log.append("check"), 0)[1], shell + "::failWith": failwith, shell + "::getTestResult": lambda *a_: 6000,
-            "SimpleString::StrCmp": lambda a_, b_: None if txt(a_) is None or txt(b_) is None else cmp3(txt(a_), txt(b_)),
-            "SimpleString::StrNCmp": lambda a_, b_, n_: None if txt(a_) is None or txt(b_) is None else cmp3(txt(a_)[:n_], txt(b_)[:n_]),
-            "SimpleString::MemCmp": lambda a_, b_, n_: None if txt(a_) is None or txt(b_) is None else cmp3(txt(a_)[:n_], txt(b_)[:n_]),
-            "doubles_equal": lambda *a_: (log.append(("doubles_equal", a_)), (answers or {}).get("doubles_equal", 1))[1]})
-        ev = Evaluator(prog, f, env=env, calls=hooks)
-        ev.pass_object = True
-        try:
-            ev.run_blocks(f.entry, max_steps=600)
-        except Halt:
-            pass
-        ctor = [t[1] for t in ev.trace if t[0].startswith("construct ") and t[0].endswith("Failure")]
-        return log, ctor
-
-    def S(t):
-        return ("str", t) if t is not None else 0
-    STRS = [None, "abc", "abd", "ABC", "ab", "", "xabcx"]
-
-    def int_cases(f):
-        rng = type_range(prog, f.params[0]["ct"]) or (0, 1000)
-        lo, hi = rng
-        vs = sorted({lo, hi, 0 if lo <= 0 else lo, 5 if lo <= 5 <= hi else hi, 6 if lo <= 6 <= hi else lo} | ({1 << 32, (1 << 32) + 5} if hi >= (1 << 33) else set()) | ({-1} if lo < 0 else set()))
-        for e_ in vs:
-            for a_ in vs:
-                yield (e_, a_), e_ != a_, "(%d, %d)" % (e_, a_)
-    TABLE = {
-        "assertTrue": lambda f: (((c,), not c, "(%d)" % c) for c in (0, 1)),
-        "assertEquals": lambda f: (((c, S("e"), S("a")), bool(c), "(failed=%d)" % c) for c in (0, 1)),
-        "assertCompare": lambda f: (((c,), not c, "(%d)" % c) for c in (0, 1)),
-        "fail": lambda f: iter([((S("text"),), True, "()")]),
-        "assertCstrEqual": lambda f: (((S(e_), S(a_)), (e_ is None) != (a_ is None) or (e_ is not None and e_ != a_), "(%r, %r)" % (e_, a_)) for e_ in STRS for a_ in STRS),
-        "assertCstrNEqual": lambda f: (((S(e_), S(a_), n_), (e_ is None) != (a_ is None) or (e_ is not None and e_[:n_] != a_[:n_]), "(%r, %r, %d)" % (e_, a_, n_)) for e_ in STRS for a_ in STRS for n_ in (0, 2, 3, 6)),
-        "assertCstrNoCaseEqual": lambda f: (((S(e_), S(a_)), (e_ is None) != (a_ is None) or (e_ is not None and e_.lower() != a_.lower()), "(%r, %r)" % (e_, a_)) for e_ in STRS for a_ in STRS),
-        "assertCstrContains": lambda f: (((S(e_), S(a_)), (e_ is None) != (a_ is None) or (e_ is not None and e_ not in a_), "(%r, %r)" % (e_, a_)) for e_ in STRS for a_ in STRS),
-        "assertCstrNoCaseContains": lambda f: (((S(e_), S(a_)), (e_ is None) != (a_ is None) or (e_ is not None and e_.lower() not in a_.lower()), "(%r, %r)" % (e_, a_)) for e_ in STRS for a_ in STRS),
-        "assertBinaryEqual": lambda f: (((S(e_), S(a_), n_), n_ != 0 and ((e_ is None) != (a_ is None) or (e_ is not None and e_[:n_] != a_[:n_])), "(%r, %r, %d)" % (e_, a_, n_)) for e_ in (None, "abc", "abd") for a_ in (None, "abc", "abd") for n_ in (0, 2, 3)),
-        "assertBitsEqual": lambda f: (((e_, a_, m_, 1), (e_ & m_) != (a_ & m_), "(%#x, %#x, mask %#x)" % (e_, a_, m_)) for e_ in (0xF0, 0x0F, (1 << 63) | 1) for a_ in (0xF0, 0xFF, 1) for m_ in (0, 0xF0, 0xFF, (1 << 64) - 1)),
-        "assertLongsEqual": int_cases, "assertUnsignedLongsEqual": int_cases, "assertLongLongsEqual": int_cases, "assertUnsignedLongLongsEqual": int_cases, "assertSignedBytesEqual": int_cases,
-        "assertPointersEqual": lambda f: (((e_, a_), e_ != a_, "(%d, %d)" % (e_, a_)) for e_ in (0, 4096, 1 << 40) for a_ in (0, 4096, (1 << 40) + (1 << 32))),
-        "assertFunctionPointersEqual": lambda f: (((e_, a_), e_ != a_, "(%d, %d)" % (e_, a_)) for e_ in (0, 4096, 1 << 40) for a_ in (0, 4096, (1 << 40) + (1 << 32))),
-    }
+    fold_assert, TABLE = assert_family(prog, shell)
     found = 0
     for name in sorted(TABLE) + ["assertDoublesEqual"]:
         fs = prog.fns("%s::%s" % (shell, name))
